@@ -38,6 +38,15 @@ def network(draw, unbalanced=False, hazards=()):
         if r >= writer[c]:
             r += 1  # reader != writer
         reader.append(r)
+    # fan out: one fiber writes (and finally closes) several channels read by different fibers, so that when it
+    # ends several parked readers become resumable at once, each through a different channel of its used list
+    fanout = nc >= 2 and nf >= 2 and draw(st.integers(0, 5)) == 0
+    if fanout:
+        w = draw(st.integers(0, nf))
+        others = [f for f in range(nf + 1) if f != w]
+        for c in range(nc):
+            writer[c] = w
+            reader[c] = others[(c + draw(st.integers(0, len(others) - 1))) % len(others)] if c else others[draw(st.integers(0, len(others) - 1))]
     # per channel: number of values; the plan is balanced unless `unbalanced`
     scripts = [[] for _ in range(nf + 1)]
     seq = [0] * (nf + 1)
@@ -50,7 +59,7 @@ def network(draw, unbalanced=False, hazards=()):
     for c in range(nc):
         sends = plan[c]
         recvs = plan[c]
-        closes = draw(st.integers(0, 3)) == 0
+        closes = draw(st.integers(0, 3)) == 0 or (fanout and draw(st.integers(0, 3)) != 0)
         if unbalanced:
             d = draw(st.integers(0, 5))
             if d == 0:
@@ -74,7 +83,7 @@ def network(draw, unbalanced=False, hazards=()):
             per_fiber_ops[w].append(("close", c))
             if draw(st.booleans()):
                 per_fiber_ops[w].append(("trysend", c))
-            extra = 0 if no_extra else draw(st.integers(0, 2))
+            extra = 0 if no_extra else (draw(st.integers(1, 2)) if fanout else draw(st.integers(0, 2)))
             for _ in range(extra):
                 per_fiber_ops[r].append(("recv", c))  # receives after close yield nil
         for _ in range(recvs):
